@@ -237,7 +237,7 @@ theorem reserveClear_step {amb : List Nat} {s : State} {b : Nat} {x : Buf} {tx :
     | .fault _ => False
     | .fail _ _ => False
     | .ok s1 _ => Step amb s s1 ∧ Frame s s1 b ∧ ∃ x1, s1.buf? b = some x1 ∧ x1.traits = some tx ∧
-        (x1.used = 0 ∨ tx = t ∨ tx.fini = t.fini) := by
+        (x1.used = 0 ∨ tx = t ∨ tx.size = t.size) := by
   obtain ⟨tx', N, xt', mtx, hu, hsz⟩ := (gs.inv.good b x hb).elems
   have e : tx' = tx := by rw [xt] at xt'; cases xt'; rfl
   subst e
@@ -245,7 +245,7 @@ theorem reserveClear_step {amb : List Nat} {s : State} {b : Nat} {x : Buf} {tx :
   have sz0 : tx'.size ≠ 0 := by omega
   unfold reserveClear
   by_cases cond : x.traits ≠ some t ∧ (x.traits.isNone = true ∨ (x.traits.bind (·.fini)).isNone = true ∨ (some t).isNone = true
-      ∨ x.traits.bind (·.fini) ≠ (some t).bind (·.fini))
+      ∨ x.traits.bind (·.fini) ≠ (some t).bind (·.fini) ∨ esize x.traits ≠ esize (some t))
   · rw [if_pos cond]
     unfold reserveFini
     simp only [xt, mtx.2.1, if_true, if_neg sz0]
@@ -284,11 +284,10 @@ theorem reserveClear_step {amb : List Nat} {s : State} {b : Nat} {x : Buf} {tx :
     by_cases e1 : tx' = t
     · exact Or.inl e1
     · right
-      simp only [ne_eq, xt, Option.isNone_some, Option.bind_some, Bool.false_eq_true, false_or] at cond
+      simp only [ne_eq, xt, Option.isNone_some, Option.bind_some, Bool.false_eq_true, false_or, esize] at cond
       apply Decidable.byContradiction
       intro nf
-      exact cond ⟨fun e => by cases e; exact e1 rfl, Or.inr nf⟩
-
+      exact cond ⟨fun e => by cases e; exact e1 rfl, Or.inr (Or.inr nf)⟩
 
 theorem Frame.ofSetBuf {s : State} {b : Nat} (blt : b < s.bufs.length) (y : Buf) : Frame s (s.setBuf b y) b :=
   ⟨rfl, rfl, by simp, fun c ne => by rw [State.buf?_setBuf _ _ _ _ blt, if_neg ne]⟩
@@ -332,7 +331,7 @@ theorem retype_step {amb : List Nat} {s : State} {nb : Nat} {z : Buf} {tx t : Tr
 
 /-- private, mutable branch of `mpt_array_reserve` -/
 theorem reserveKeep_ok {amb : List Nat} {s : State} (gs : GoodS amb s) {h b : Nat} {x : Buf} {tx : Traits} (hh : s.handle h = some b)
-    (hb : s.buf? b = some x) (xt : x.traits = some tx) (t : Traits) (mt : Managed t) (hc : tx.fini = t.fini → tx.size = t.size) (L : Nat) :
+    (hb : s.buf? b = some x) (xt : x.traits = some tx) (t : Traits) (mt : Managed t) (L : Nat) :
     OpOK amb s (reserveKeep s h b x L (some t)) := by
   unfold reserveKeep
   have rc := reserveClear_step gs hb xt t
@@ -355,12 +354,11 @@ theorem reserveKeep_ok {amb : List Nat} {s : State} (gs : GoodS amb s) {h b : Na
       rcases alt with u0 | e | e
       · left; omega
       · right; rw [e]
-      · right; exact hc e
+      · right; exact e
 
-/-- `mpt_array_reserve` with managed element traits; a differently typed private buffer with the same destructor
-    must have the same element size (the data is kept and reinterpreted) -/
-theorem reserve_ok {amb : List Nat} {s : State} (gs : GoodS amb s) {h : Nat} (hlt : h < s.hs.length) (len : Nat) (t : Traits) (mt : Managed t)
-    (hc : ∀ b x tx, s.handle h = some b → s.buf? b = some x → x.traits = some tx → tx.fini = t.fini → tx.size = t.size) :
+/-- `mpt_array_reserve` with managed element traits (a differently typed private buffer keeps its data only when the
+    types share destructor and element size) -/
+theorem reserve_ok {amb : List Nat} {s : State} (gs : GoodS amb s) {h : Nat} (hlt : h < s.hs.length) (len : Nat) (t : Traits) (mt : Managed t) :
     OpOK amb s (arrayReserve s h len (some t)) := by
   have h4 := mt.2.2
   have sz0 : ¬ esize (some t) = 0 := by simp only [esize]; omega
@@ -378,10 +376,12 @@ theorem reserve_ok {amb : List Nat} {s : State} (gs : GoodS amb s) {h : Nat} (hl
     rw [hb]
     simp only
     split
-    · have := reserveNew_ok gs hlt t mt (reserveLen x (roundUp len (esize (some t))) (some t))
-      rw [hh] at this
-      exact this
+    · split
+      · exact OpOK.fail_same gs _
+      · have := reserveNew_ok gs hlt t mt (reserveLen x (roundUp len (esize (some t))) (some t))
+        rw [hh] at this
+        exact this
     · obtain ⟨tx, _, xt, _, _, _⟩ := (gs.inv.good b x hb).elems
-      exact reserveKeep_ok gs hh hb xt t mt (hc b x tx hh hb xt) _
+      exact reserveKeep_ok gs hh hb xt t mt _
 
 end Mpt.Heap
